@@ -143,10 +143,11 @@ class E1Check(runner.Check):
                     exp.append(("error", str(err)))
                 except refops.Skip as err:
                     exp.append(("skip", str(err)))
+            first_choice = {}
             for d, names in enclist:
                 st.states += 1
                 lay = layouts.build(d)
-                for (opname, args), (ekind, evalue) in zip(ops, exp):
+                for oi, ((opname, args), (ekind, evalue)) in enumerate(zip(ops, exp)):
                     self._no += 1
                     pool.mark(self._no)
                     st.transitions += 1
@@ -166,6 +167,18 @@ class E1Check(runner.Check):
                         continue
                     if ekind == "value" and got[0] == "value":
                         if self.matches(evalue, got[1], opname, args):
+                            if _has_alt(evalue):
+                                # where the statement admits several answers, every encoding of one value must still
+                                # give the same one (the choice cannot depend on the physical layout)
+                                if oi not in first_choice:
+                                    first_choice[oi] = (got[1], names, d)
+                                elif not layoutsem.same(first_choice[oi][0], got[1]):
+                                    self._other = first_choice[oi][2]
+                                    self._viol(st, "encoding-dependent-choice", T, tvs, d, names, opname, args,
+                                               "admitted answers %r; encoding %s gives %r but this encoding gives %r" % (
+                                                   evalue, first_choice[oi][1] or "canonical", first_choice[oi][0], got[1]))
+                                    self._other = None
+                                    continue
                             st.outcome("%s:ok" % opname)
                             if not trivial(got[1]):
                                 st.nontrivial += 1
@@ -193,6 +206,8 @@ class E1Check(runner.Check):
     def _viol(self, st, failure, T, tvs, d, names, opname, args, text):
         case = {"layout": layouts.to_json(d), "type": values.tstr(T), "op": opname, "args": _jsonable(args),
                 "value": repr(values.strip(tvs)), "gtype": values.type_to_json(T), "tvs": values.tv_to_json(tvs)}
+        if getattr(self, "_other", None) is not None:
+            case["other_layout"] = layouts.to_json(self._other)
         sig = {"op": opname, "failure": failure}
         sig.update(self.signature(T, tvs, d, names, opname, args, failure))
         st.violation(failure, "%s%r on %s [%s; encoding %s]: %s" % (opname, tuple(args), layouts.short(d)[:400],
@@ -221,6 +236,15 @@ class E1Check(runner.Check):
         text.append("observed: %s %r" % got)
         if exp[0] == "skip":
             bad = False
+        elif exp[0] == "value" and got[0] == "value" and case.get("other_layout"):
+            other = layouts.build(layouts.from_json(case["other_layout"]))
+            try:
+                got2 = ("value", observe(self.apply(other, case["op"], args)))
+            except ERRORS as err:
+                got2 = ("error", err)
+            text.append("other encoding: %s" % layouts.short(layouts.from_json(case["other_layout"])))
+            text.append("observed there: %s %r" % got2)
+            bad = not self.matches(exp[1], got[1], case["op"], args) or got2[0] != "value" or not layoutsem.same(got[1], got2[1])
         elif exp[0] == "value" and got[0] == "value":
             bad = not self.matches(exp[1], got[1], case["op"], args)
         elif exp[0] == "error":
@@ -228,6 +252,16 @@ class E1Check(runner.Check):
         else:
             bad = not self.refusal_ok(T, tvs, case["op"], args, got[1])
         return bad, "\n".join(text)
+
+
+def _has_alt(v):
+    if isinstance(v, refops.Alt):
+        return True
+    if isinstance(v, (list, tuple)):
+        return any(_has_alt(x) for x in v)
+    if isinstance(v, dict):
+        return any(_has_alt(x) for x in v.values())
+    return False
 
 
 def _jsonable(x):
